@@ -164,6 +164,21 @@ FIXED = [
             'Schreibe (4 gerade ist) auf eine Zeile.\nSchreibe (4 nicht gerade ist) auf eine Zeile.\nSchreibe (3 nicht gerade ist) auf eine Zeile.\n'
             'Wenn 5 nicht gerade ist, Schreibe "ungerade" auf eine Zeile.\n',
      "wahr\nfalsch\nwahr\nungerade\n"),
+    ("negated-alias-of-generic-function",
+     HEAD + 'Binde "Duden/Listen" ein.\n'
+            'Die generische Funktion kommt_vor mit den Parametern l und e vom Typ T Liste und T, gibt einen Wahrheitswert zurück, macht:\n'
+            '\tFür jedes T x in l, mache:\n\t\tWenn x gleich e ist, Gib wahr zurück.\n\tGib falsch zurück.\n'
+            'Und kann so benutzt werden:\n\t"<e> <!nicht> in <l> vorkommt"\n\n'
+            'Die Zahlen Liste zl ist eine Liste, die aus 1, 2, 3 besteht.\nDie Text Liste tl ist eine Liste, die aus "a", "b" besteht.\n'
+            'Schreibe (2 in zl vorkommt) auf eine Zeile.\nSchreibe (2 nicht in zl vorkommt) auf eine Zeile.\nSchreibe (9 nicht in zl vorkommt) auf eine Zeile.\n'
+            'Schreibe ("z" nicht in tl vorkommt) auf eine Zeile.\nSchreibe (zl 2 enthält) auf eine Zeile.\nSchreibe (zl 2 nicht enthält) auf eine Zeile.\n'
+            'Schreibe (zl nicht leer ist) auf eine Zeile.\nWenn tl "q" nicht enthält, Schreibe "fehlt" auf eine Zeile.\n',
+     "wahr\nfalsch\nwahr\nwahr\nwahr\nfalsch\nwahr\nfehlt\n"),
+    ("negated-alias-with-referenz",
+     HEAD + 'Die Funktion ist_gross mit dem Parameter z vom Typ Zahlen Referenz, gibt einen Wahrheitswert zurück, macht:\n\tErhöhe z um 1.\n\tGib z größer als 10 ist zurück.\n'
+            'Und kann so benutzt werden:\n\t"<z> <!nicht> gross wird"\n\n'
+            'Die Zahl a ist 9.\nSchreibe (a nicht gross wird) auf eine Zeile.\nSchreibe (a nicht gross wird) auf eine Zeile.\nSchreibe (a gross wird) auf eine Zeile.\nSchreibe a auf eine Zeile.\n',
+     "wahr\nfalsch\nwahr\n12\n"),
     ("operator-overload-exact-types",
      HEAD + 'Wir nennen die Kombination aus\n\tder Zahl x mit Standardwert 0,\neinen Vek, und erstellen sie so:\n\t"Vek <x>"\n\n'
             'Die Funktion vekplus mit den Parametern a und b vom Typ Vek und Vek, gibt einen Vek zurück, macht:\n\tGib Vek ((x von a) plus (x von b)) zurück.\n'
